@@ -2,6 +2,7 @@ package soyhtml
 
 import (
 	"bytes"
+	"github.com/robfig/soy/soymsg"
 	"math"
 
 	"github.com/robfig/soy/ast"
@@ -272,4 +273,41 @@ func H_directive(dir, nargs, ka, k1, k2 int) {
 	if c06Dirs[dir] == "noSuchDirective" || ka == 0 {
 		verifAssert(err != nil, "C06: unknown directive or undefined value printed without error")
 	}
+}
+
+// c06StaleBundle: a catalogue whose translation of every message does not fit the message any
+// more: it names a placeholder the message lacks (kind 0), is a plural for a message that is not
+// (1), selects a plural case that does not exist (2), or has no parts at all (3).
+type c06StaleBundle struct{ kind int }
+
+func (b c06StaleBundle) Locale() string { return "xx" }
+func (b c06StaleBundle) Message(id uint64) *soymsg.Message {
+	switch b.kind {
+	case 0:
+		return &soymsg.Message{ID: id, Parts: []soymsg.Part{soymsg.RawTextPart{Text: "t "}, soymsg.PlaceholderPart{Name: "NO_SUCH_PLACEHOLDER"}}}
+	case 1:
+		return &soymsg.Message{ID: id, Parts: []soymsg.Part{soymsg.PluralPart{VarName: "NO_SUCH_VAR", Cases: []soymsg.PluralCase{{Spec: soymsg.PluralSpec{Type: soymsg.PluralSpecOther}, Parts: []soymsg.Part{soymsg.RawTextPart{Text: "x"}}}}}}}
+	case 2:
+		return &soymsg.Message{ID: id, Parts: []soymsg.Part{soymsg.PluralPart{VarName: "X_1", Cases: nil}}}
+	}
+	return &soymsg.Message{ID: id}
+}
+func (b c06StaleBundle) PluralCase(n int) int { return 3 }
+
+// H_staleTranslation (C06): rendering through a catalogue whose entries do not match the messages
+// returns output or an error, directly and one call deep, for plain and plural messages.
+func H_staleTranslation(kind, tpl int) {
+	srcs := []string{
+		"{namespace a}\n/** @param x */\n{template .t}\nA{msg desc=\"d\"}Hi {$x}{/msg}B\n{/template}\n",
+		"{namespace a}\n/** @param x */\n{template .t}\nA{call .u data=\"all\"/}B\n{/template}\n/** @param x */\n{template .u}\n{msg desc=\"d\"}Hi <b>{$x}</b>{/msg}\n{/template}\n",
+		"{namespace a}\n/** @param x */\n{template .t}\nA{msg desc=\"d\"}{plural $x}{case 1}one{default}{$x} many{/plural}{/msg}B\n{/template}\n",
+	}
+	tofu := verifMustCompile(srcs[tpl])
+	var out []byte
+	err := tofu.NewRenderer("a.t").WithMessages(c06StaleBundle{kind}).Execute(&sliceWriter{&out}, data.Map{"x": data.Int(int64(verifChoose(3)))})
+	verifObserve("out", string(out))
+	if err != nil {
+		verifObserve("res", "error")
+	}
+	// (reaching this line is the verdict: no panic escaped, no unbounded loop)
 }
